@@ -2,13 +2,17 @@
 
    Proved here (about the memory/VM model): the error path resets the main
    machine completely; growing the stack never loses or moves anything;
-   Push/Pop and PushFrame/PopFrame are balanced.  NOT proved: that every
+   Push/Pop and PushFrame/PopFrame are balanced; a pure expression statement
+   (literals, globals, operators, any depth) compiled and run leaves the
+   operand stack pointer, every cell below it, the frame and closure stacks
+   and the main context where they were ([C09_pure_expression_is_balanced],
+   from ExprTop.v).  NOT proved: that every
    statement the compiler emits is balanced on every path
    ([C09_stmt_balanced_statement], open); the check decides that part by
    reading the residue counters of the real machine after every statement and
    by loop-scaling runs, and compares the counters with the VM model. *)
 Require Import Calc.Base Calc.Bytecode Calc.Value Calc.FloatText Calc.Ast Calc.Resolve Calc.Compile
-        Calc.VM Calc.Session Calc.MemProofs.
+        Calc.VM Calc.Session Calc.MemProofs Calc.ExprSem Calc.ExprVM Calc.ExprCorrect Calc.ExprTop.
 Open Scope Z_scope.
 
 (* the open statement: running a compiled top-level tree that ends with a
@@ -52,3 +56,19 @@ Theorem C09_pushframe_popframe_balanced : forall m a l ser m' g,
               m_clos m'' = m_clos m /\ m_serials m'' = m_serials m.
 Proof. exact pushframe_popframe_balanced. Qed.
 Print Assumptions C09_pushframe_popframe_balanced.
+
+(* a pure expression statement leaves no residue *)
+Theorem C09_pure_expression_is_balanced : forall e mc c m s' x,
+  pure e = true -> machine_idle mc c m ->
+  ByteCode e (mc_cs mc) = CompOk s' -> ncs s' - ncs (mc_cs mc) < 400000 ->
+  den (v_globals (mc_vm mc)) e = Ok x ->
+  exists mc' c' m', run_tree false mc e = (mc', TValue x) /\ machine_idle mc' c' m' /\
+    m_sp m' = m_sp m /\ c_mid c' = c_mid c /\ c_ip c' = ncs (mc_cs mc').
+Proof.
+  intros e mc c m s' x Hp Hid HB Hlen Hd.
+  pose proof (run_tree_pure e mc c m s' Hp Hid HB Hlen) as R. rewrite Hd in R.
+  destruct R as [mc' [c' [m' (R & Hid' & Hsp & Hmid & _)]]].
+  exists mc', c', m'. split; [exact R|]. split; [exact Hid'|]. split; [exact Hsp|]. split; [exact Hmid|].
+  destruct Hid' as [_ I]. exact (id_ip _ _ _ _ I).
+Qed.
+Print Assumptions C09_pure_expression_is_balanced.
